@@ -39,6 +39,7 @@ pub fn families() -> Vec<&'static dyn Family> {
         &nsim::shutdown::SHUTDOWN_LIVE,
         &nsim::multitopic::MULTI_TOPIC,
         &nsim::peerloss::PEER_LOSS,
+        &nsim::rrslow::RR_SLOW,
     ]
 }
 
@@ -99,7 +100,7 @@ pub fn plan(property: &str) -> Option<CheckPlan> {
             ],
             real: R_REAL.to_vec(),
             stubbed: R_STUB.to_vec(),
-            items: vec![PlanItem { family: &rsim::reqrep::RR_CLEAN, quick: 200_000, thorough: 5_000_000 }],
+            items: vec![PlanItem { family: &rsim::reqrep::RR_CLEAN, quick: 200_000, thorough: 5_000_000 }, PlanItem { family: &nsim::rrslow::RR_SLOW, quick: 200, thorough: 8_000 }],
         }),
         "C09" => Some(CheckPlan {
             property: "C09",
